@@ -282,8 +282,45 @@ def signal_expr(rng, case, kinds, maxdeg=2, allow_dt=False):
     syms = sym_list(case, ks)
     sig = sym_list(case, [k for k in ("x", "u") if k in kinds]) or sym_list(case, ["t"])
     core = rng.choice(sig)
-    e = ["+", ["*", C(dyadic_nz(rng, -2, 2, 1)), core], rand_poly(rng, syms, maxdeg, nterms=rng.randint(1, 2))]
-    return e
+    for _ in range(20):
+        e = ["+", ["*", C(dyadic_nz(rng, -2, 2, 1)), core], rand_poly(rng, syms, maxdeg, nterms=rng.randint(1, 2))]
+        if depends_on_symbol(e, core):
+            return e
+    return ["+", ["*", C(1), core], C(dyadic(rng, -2, 2, 1))]
+
+
+def eval_expr(e, val):
+    """exact value of an offset-free expression with symbol values val[(kind, index)]"""
+    op = e[0]
+    if op == "c":
+        return Fraction(e[1], e[2])
+    if op == "s":
+        return val[tuple(e[1:])]
+    if op in ("+", "-", "*"):
+        a, b = eval_expr(e[1], val), eval_expr(e[2], val)
+        return a + b if op == "+" else a - b if op == "-" else a * b
+    if op == "/":
+        return eval_expr(e[1], val) / eval_expr(e[2], val)
+    if op == "neg":
+        return -eval_expr(e[1], val)
+    if op == "pow":
+        return eval_expr(e[1], val) ** e[2]
+    raise ValueError(e)
+
+
+def depends_on_symbol(e, sym):
+    """the leading signal term must not be cancelled by the random polynomial (u + (c - u) is folded by
+    CasADi into a constant and the relation stops being a path constraint)"""
+    class V(dict):
+        def __missing__(self, k):
+            self[k] = Fraction(3 + 2 * len(self), 7)
+            return self[k]
+    try:
+        v1 = V(); a = eval_expr(e, v1)
+        v2 = V(v1); v2[tuple(sym[1:])] = v1[tuple(sym[1:])] + Fraction(5, 3)
+        return eval_expr(e, v2) != a
+    except ZeroDivisionError:
+        return True
 
 
 def add_offsets(rng, e, p=0.5, offs=(-2, -1, 1, 2, 3)):
